@@ -40,7 +40,10 @@ from __future__ import annotations
 import logging
 import multiprocessing
 import os
+import sys
+from collections.abc import Iterator
 from concurrent.futures import Future, ProcessPoolExecutor, as_completed
+from contextlib import contextmanager
 from pathlib import Path
 
 from src.core.base import BaseLintContext, BaseLintRule
@@ -99,6 +102,22 @@ _LINTER_SECTION_ALIASES: dict[str, tuple[str, ...]] = {
     "improper-logging": ("improper-logging", "print-statements"),
     "collection-pipeline": ("collection-pipeline", "pipeline"),
 }
+
+
+# The rules walk syntax trees recursively, one or two frames per nesting level of the source:
+# a long operator chain (a + b + ... thousands of terms) is deeper than the interpreter's default limit
+_RULE_RECURSION_LIMIT = 50_000
+
+
+@contextmanager
+def _deep_recursion() -> Iterator[None]:
+    """Raise the interpreter recursion limit while a rule analyses a file."""
+    previous = sys.getrecursionlimit()
+    sys.setrecursionlimit(max(previous, _RULE_RECURSION_LIMIT))
+    try:
+        yield
+    finally:
+        sys.setrecursionlimit(previous)
 
 
 def _is_hardcoded_excluded(file_path: Path) -> bool:
@@ -402,7 +421,8 @@ class Orchestrator:  # thailint: ignore[srp]
     def _safe_check_rule(self, rule: BaseLintRule, context: BaseLintContext) -> list[Violation]:
         """Safely check a rule, returning empty list on error."""
         try:
-            return rule.check(context)
+            with _deep_recursion():
+                return rule.check(context)
         except ValueError:
             # Re-raise configuration validation errors (these are user-facing)
             raise
